@@ -25,7 +25,7 @@ func init() {
 		if err != nil {
 			return val.Err
 		}
-		return okb(back.Verify(curveByName(val.AsAtom(a[0])), &paillier.PublicKey{N: val.AsInt(a[1])}, val.AsInt(a[2]), val.AsInt(a[3]), val.AsInt(a[4]), val.AsInt(a[5])))
+		return okb(back.Verify(curveByName(val.AsAtom(a[0])), paiPKObj(val.AsInt(a[1])), val.AsInt(a[2]), val.AsInt(a[3]), val.AsInt(a[4]), val.AsInt(a[5])))
 	})
 	vc.Register("bob_verify_rt", func(a []val.V) val.V {
 		p := val.AsInts(a[8])
@@ -35,7 +35,7 @@ func init() {
 		if err != nil {
 			return val.Err
 		}
-		return okb(back.Verify(val.AsBytes(a[1]), curveByName(val.AsAtom(a[0])), &paillier.PublicKey{N: val.AsInt(a[2])}, val.AsInt(a[3]), val.AsInt(a[4]), val.AsInt(a[5]), val.AsInt(a[6]), val.AsInt(a[7])))
+		return okb(back.Verify(val.AsBytes(a[1]), curveByName(val.AsAtom(a[0])), paiPKObj(val.AsInt(a[2])), val.AsInt(a[3]), val.AsInt(a[4]), val.AsInt(a[5]), val.AsInt(a[6]), val.AsInt(a[7])))
 	})
 	vc.Register("bobwc_verify_rt", func(a []val.V) val.V {
 		ec := curveByName(val.AsAtom(a[0]))
@@ -50,7 +50,7 @@ func init() {
 		if err != nil {
 			return val.Err
 		}
-		return okb(back.Verify(val.AsBytes(a[1]), ec, &paillier.PublicKey{N: val.AsInt(a[2])}, val.AsInt(a[3]), val.AsInt(a[4]), val.AsInt(a[5]), val.AsInt(a[6]), val.AsInt(a[7]), X))
+		return okb(back.Verify(val.AsBytes(a[1]), ec, paiPKObj(val.AsInt(a[2])), val.AsInt(a[3]), val.AsInt(a[4]), val.AsInt(a[5]), val.AsInt(a[6]), val.AsInt(a[7]), X))
 	})
 	vc.Register("fac_verify_rt", func(a []val.V) val.V {
 		p := val.AsInts(a[6])
